@@ -190,7 +190,7 @@ func runC03(x *X) {
 		})
 	})
 	wide := WideGrids()
-	x.Explore("wide", ExploreOpts{ShardDepth: 2, Bound: "4 tables of 10-13 columns x a multi-line/wide text in each column position in turn x all decorations"}, func(c *Chooser) {
+	x.Explore("wide", ExploreOpts{ShardDepth: 2, Bound: "1 table of 56 rows and 4 tables of 10-13 columns x a multi-line/wide text in each column position in turn x all decorations"}, func(c *Chooser) {
 		g0 := wide[c.Choose(len(wide))]
 		dc := allDecors[c.Choose(len(allDecors))]
 		g := &Grid{HasHeader: g0.HasHeader, Header: append([]string{}, g0.Header...), HeaderLast: g0.HeaderLast}
